@@ -84,6 +84,14 @@ static int c06_main(int argc,char **argv){
         for(c=0;c<ch;c++){ double err=0,eo=0; for(i=0;i<m;i++){ double d=(double)in[c][i]-out[c][i]; err+=d*d; eo+=(double)out[c][i]*out[c][i]; }
           if(ein[c]>0) printf("%s%d",c?",":"",(int)floor(100.0*log10((ein[c]+1e-30)/(err+1e-30))));
           else printf("%sS%d",c?",":"",(int)floor(100.0*log10((eo+1e-30)/(emax+1e-30)))); }
+        /* worst 256-sample window: error energy of the window against the channel's mean energy per 256 samples, tenths of dB (an error burst
+           that the whole-signal SNR averages away) */
+        printf(" pk=");
+        for(c=0;c<ch;c++){ double pk=0; long at=0; for(i=0;i<outn&&i<N+8192;i++){ double a=fabs(out[c][i]); if(a>pk){pk=a;at=i;} } printf("%s%.3f@%ld",c?",":"",pk,at); }
+        printf(" wwin=");
+        for(c=0;c<ch;c++){ double worst=0; long w0; for(w0=2048;w0+256+2048<=m;w0+=128){ double e=0; for(i=w0;i<w0+256;i++){ double d=(double)in[c][i]-out[c][i]; e+=d*d; } if(e>worst)worst=e; }
+          if(ein[c]>0&&m>8192) printf("%s%d",c?",":"",(int)floor(100.0*log10((ein[c]/(double)N*256.0+1e-30)/(worst+1e-30))));
+          else printf("%sS",c?",":""); }
         putchar('\n'); free(ein);
       }
       vorbis_block_clear(&dvb); vorbis_dsp_clear(&dvd); vorbis_comment_clear(&dvc); vorbis_info_clear(&dvi);
